@@ -130,10 +130,8 @@ class AFMWriter(ModelToText):
         if node.left and node.right:
             result = self.recursive_constraint_read(
                 node.left) + data + self.recursive_constraint_read(node.right)
-        elif not node.left and node.right:
-            result = data + self.recursive_constraint_read(node.right)
-        elif node.left and not node.right:
-            result = self.recursive_constraint_read(node.left) + node.data
+        elif node.left and not node.right:  # unary operator: NOT
+            result = data + self.recursive_constraint_read(node.left)
         else:
             result = " " + data + " "
 
